@@ -11,9 +11,11 @@ import time
 import codec
 import tlcrun
 
-OUT_ROOT = "/verif/out"
-EVIDENCE_DIR = "/verif/evidence"
-FINDINGS_FILE = "/verif/known_findings.json"
+# everything is relative to the checkout this file lives in (so that a snapshot of /verif is self-contained)
+VERIF_ROOT = os.path.dirname(os.path.dirname(os.path.abspath(__file__)))
+OUT_ROOT = os.path.join(VERIF_ROOT, "out")
+EVIDENCE_DIR = os.path.join(VERIF_ROOT, "evidence")
+FINDINGS_FILE = os.path.join(VERIF_ROOT, "known_findings.json")
 
 
 class MachineryError(Exception):
